@@ -72,15 +72,23 @@ def r2(ctx):
             keep = ind[0].value[2][0]
             # the columns concatenated are indexed by the same keep list
             for w in affw:
-                uses_keep = any(s(x) == s(keep) for x in walk(w[5]))
-                # closure selects index_axis(Axis(1), *i) of the node's own matrix
-                clo = [x for x in walk(w[5]) if isinstance(x, tuple) and x[:1] == ('closure',)]
-                col = False
-                for cexpr in clo:
-                    cb, rets = prune.closure_ret(F, cexpr)
-                    if rets and any(is_call(x, 'ArrayBase::index_axis') and x[2][1] == ('agg', ('adt', 'Axis', 'Axis', ('0',)), (('const', 1),)) for r in rets for x in walk(r)):
-                        col = True
-                if uses_keep and col and is_call(w[5], 'concatenate') and w[5][2][0] == ('agg', ('adt', 'Axis', 'Axis', ('0',)), (('const', 1),)):
+                # whatever builds the column list (iterator chain or push loop): every element is a column `index_axis(mat, Axis(1), i)` with i drawn from the keep list
+                AX1 = ('agg', ('adt', 'Axis', 'Axis', ('0',)), (('const', 1),))
+                if not (is_call(w[5], 'concatenate') and s(w[5][2][0]) == AX1):
+                    continue
+                elems = prune.vec_elements(F, b, R, w[5][2][1])
+                if not elems:
+                    continue
+                good = True
+                for e in elems:
+                    cols = [x for x in walk(e) if is_call(x, 'ArrayBase::index_axis')]
+                    if len(cols) != 1 or s(cols[0][2][1]) != AX1:
+                        good = False
+                        continue
+                    idx = cols[0][2][2]
+                    if not (is_call(idx, 'Iterator::next') and s(idx[2][0]) == s(keep)):
+                        good = False
+                if good:
                     ok = True
         if ok:
             ctx.ok('C04.R2', 'AffTree::remove_axes#dims', 'in_dim := |kept axes| and every node matrix := its columns at the kept axes (same list)', b.span)
